@@ -89,6 +89,11 @@ func propC01(run *Run, n int) {
 	run.rule = "random (a, b=mutation of a) x 9 option/generator profiles; non-trivial = the diff has at least one hunk; distinct = distinct (options, a, b)"
 	r := NewRng(run.Seed)
 	choices := coreOptChoices()
+	{
+		// long lists (beyond 2048 elements between the common ends), an unchanged container behind a changed element
+		a, b := largeEndsPair(r, 2100+r.Intn(50), true)
+		addLargeArrayCase(run, a, b, false)
+	}
 	for i := 0; i < n; i++ {
 		ch := choices[r.Intn(len(choices))]
 		cfg := ch.cfg()
